@@ -1,10 +1,17 @@
 """C01 — arbitrary file bytes never cause memory errors or undefined behaviour.
 
 proof  : XmpProps.C01 (mixer sample-window arithmetic: every tap of every kernel iteration lies inside the
-         allocation libxmp_load_sample makes around the sample, forward and reverse, all interpolators)
-tie    : harness/c01_window.c observes every real kernel call of libxmp_mixer_softmixer (call site rerouted by a
-         function-like macro, no source change); the native driver drv_c01 evaluates the model's windowOk and
-         the theorem hypotheses on those calls
+         allocation libxmp_load_sample makes around the sample, forward and reverse, all interpolators; voice
+         position invariant of libxmp_mixer_softmixer: established by the tick prologue from any voice state,
+         preserved by every iteration of the segment loop / loop_reposition / queued sample swap, and implying
+         the hypotheses of the window theorems for the sample count the loop computes)
+         XmpProps.C01Compose (window inside the allocation proved by C20, indices used by get_frame_info /
+         pattern lookup in range under C03 well-formedness and the C16 invariant)
+tie    : harness/c01_window.c observes every real kernel call of libxmp_mixer_softmixer and the exact voice state
+         before/after the tick prologue, every segment-loop iteration, voicepos/setpatch/reverse/release (macros,
+         no source change); the native driver drv_c01 recomputes every transition with XmpModel.VoicePos and
+         evaluates the invariant and the window on every observed state; tools/gen_mixer_voice.py reads the
+         clamps the model relies on from mixer.c
 search : harness/c01_fuzz.c — mutational exploration of the 4 load + 4 test entry points followed by random
          play / seek / position / row / restart histories under random configurations, on the clang-14
          ASan+UBSan build (thorough: also MSan); a sanitizer report is the violation, the case its replay
@@ -15,24 +22,124 @@ import re
 import shutil
 import vlib
 import synthmods
+import gen_mixer_voice
 
 LEVEL = "proof"
 MANIFEST = dict(
     category="proof",
-    text="PARTIAL. Proved in Lean 4 (XmpProps.C01): for every voice position, step, segment length and interpolator, forward and "
-         "reverse, every sample frame a mixing kernel touches lies in [-1, len+3] — inside the guard frames libxmp_load_sample "
-         "allocates — and a voice never receives more iterations than the tick size. The hypotheses are evaluated by the native "
-         "driver on every kernel call observed in the real mixer (tie). The ~110 format parsers and depackers are NOT modelled: for "
-         "them this check is sanitized exploration (ASan+UBSan, thorough +MSan) of mutated corpus files through all 8 entry points "
-         "followed by random playback/seek histories, which yields replayable failing inputs.",
-    note="Trusted: Lean kernel, model XmpModel/MixWindow.lean, harnesses, sanitizers. Not verified: parsers, depackers, effect "
-         "interpreters, IEEE rounding of the double voice position (model uses exact rationals; the driver measures how many real "
-         "calls meet the hypotheses). Related proved pieces are audited under C20 (sample layout), C03 (post-load indices), C16/C17.",
-    technique="Lean 4 proof of the mixer window arithmetic + monitored hypotheses + sanitizer-guided mutational search",
+    text="PARTIAL (the ~110 format parsers and depackers are searched, not modelled). Proved in Lean 4: (1) XmpProps.C01 window "
+         "arithmetic: for every voice position, step, segment length and interpolator, forward and reverse, every sample frame a "
+         "mixing kernel touches lies in [-1, len+3], and a voice never receives more iterations than the tick size. (2) Voice "
+         "position invariant (model XmpModel/VoicePos.lean of libxmp_mixer_softmixer's tick prologue and segment loop, "
+         "adjust_voice_end, loop_reposition, has_active_loop, hotswap_sample, libxmp_mixer_voicepos/setpatch/reverse/release, over "
+         "exact rationals): the tick prologue establishes the invariant from ANY voice state, every loop iteration / "
+         "loop_reposition / queued sample swap preserves it, the loop terminates within 2*ticksize iterations, and the invariant "
+         "implies the hypotheses of the window theorems for the sample count the loop computes (C01_voice_tick: every kernel call "
+         "of every reachable state is in bounds; C01_wraparound_window for the loop patching; C01_voicepos_bound for the "
+         "position-setting entry points). The defect this exposed (one-shot sample ending on a tick boundary, then S9F: heap "
+         "overflow) is fixed in /repo; C01_reverse_past_end_unclamped/_clamped prove both sides on the witness. (3) "
+         "XmpProps.C01Compose: the window lies inside the block C20 proves libxmp_load_sample allocates, for frame sizes 1/2/4 "
+         "(C01_mixer_reads_in_allocation); the sample assumption SmpOk follows from C20_loop and from C03's WFCommon + samples "
+         "clause (C01_smpOk_of_loaded/_of_wf); the indices used by xmp_get_frame_info and by the pattern lookup of read_row are in "
+         "range under C03 WFCommon and the C16 invariant for every history (C01_indices_after_gate, which lists the covered uses). "
+         "Tie: the harness observes the exact voice state (positions as exact dyadic rationals) before/after the tick prologue, "
+         "every segment-loop iteration, every kernel call and every voicepos/setpatch/reverse/release call of the real mixer; the "
+         "native driver recomputes each transition with the model, evaluates the invariant, SmpOk and the window on every "
+         "observed state, and tools/gen_mixer_voice.py reads the clamps the model relies on from mixer.c. Search: sanitized "
+         "(ASan+UBSan, thorough +MSan) exploration of mutated corpus files and structure-aware synthetic modules (MOD/XM/S3M/IT, "
+         "DBM, MED, IT with truncated compressed samples) through all 8 entry points with random playback/seek histories, plus a "
+         "heap-garbage independence oracle (same cases under two allocator fill bytes must let a client read the same bytes).",
+    note="Trusted: Lean kernel, models XmpModel/MixWindow.lean + VoicePos.lean, the generated facts (regular expressions on mixer.c), "
+         "harnesses, sanitizers. Not verified: parsers, depackers, effect interpreters (which positions/flags they hand to the mixer "
+         "is irrelevant for the voice theorems: the tick prologue is proved from any state, but instrument/sample/key-map indices "
+         "taken from events are NOT covered), volumes/ramps/anticlick/filters and the output buffer arithmetic of the mixer, the "
+         "Paula kernels' own position walk, IEEE rounding of the double voice position (model = exact rationals; the driver "
+         "compares with tolerance 2^-18 frame and counts transitions that only match with samples+-1: 0 observed so far). "
+         "Assumption SmpOk (0<=lps<lpe<=len for looped samples, same for active sustain loops) is proved from C20/C03 only for "
+         "samples libxmp_load_sample really loaded; it is evaluated on every observed sample. C01_indices_after_gate covers "
+         "post-frame states (the (ord,row) the frame read), not states between kernel and effect stages. The window harness "
+         "switches XMP_PLAYER_MODE while playing only on corpus modules: on synthetic order lists that begin with 0xff a mode with "
+         "QUIRK_MARKER makes next_order spin (reported; C16's OrdWF hypothesis), so synthetic modules are played without mode switch.",
+    technique="Lean 4 proofs (window arithmetic, voice position invariant, composition with C20/C03/C16) + exact state-transition "
+              "correspondence on the real mixer + sanitizer-guided structure-aware mutational search + allocator-fill differential",
     design_ref="DESIGN.md section 4 C01",
 )
 REQUIRED = ["Xmp.MixWindow.C01_window_forward", "Xmp.MixWindow.C01_window_reverse", "Xmp.MixWindow.C01_windowOk",
-            "Xmp.MixWindow.C01_iterations"]
+            "Xmp.MixWindow.C01_iterations",
+            "Xmp.VoicePos.C01_voice_window", "Xmp.VoicePos.C01_voice_callOk", "Xmp.VoicePos.C01_voice_tickStart",
+            "Xmp.VoicePos.C01_voice_step", "Xmp.VoicePos.C01_voice_reposition", "Xmp.VoicePos.C01_voice_tick",
+            "Xmp.VoicePos.C01_voice_fuel", "Xmp.VoicePos.C01_wraparound_window", "Xmp.VoicePos.C01_voicepos_bound",
+            "Xmp.VoicePos.C01_reverse_past_end_unclamped", "Xmp.VoicePos.C01_reverse_past_end_clamped",
+            "Xmp.C01Compose.C01_mixer_reads_in_allocation", "Xmp.C01Compose.C01_wraparound_in_allocation",
+            "Xmp.C01Compose.C01_smpOk_of_loaded",
+            "Xmp.C01Compose.C01_smpOk_of_wf", "Xmp.C01Compose.C01_indices_after_gate"]
+PROOF_MODULES = ["XmpProps.C01", "XmpProps.C01Compose"]
+
+VOICE_KEYS = ["tickOk", "tickBad", "stepOk", "stepFp", "stepBad", "endOk", "endFp", "endBad", "endSkip", "invOk", "invTol",
+              "invBad", "smpBad", "callOk", "callBad", "kOk", "kFp", "kBad", "apiOk", "apiBad", "apiSkip", "stepRev",
+              "stepRepos", "stepSwap", "noData"]
+VOICE_BAD = ["tickBad", "stepBad", "endBad", "kBad", "apiBad"]
+
+
+def parse_voice_line(lines):
+    for l in lines:
+        if l.startswith("voice "):
+            t = l.split()
+            return {t[i]: int(t[i + 1]) for i in range(1, len(t) - 1, 2)}
+    return None
+
+
+def run_fixed_window(args):
+    exe, rate, interp, frames, paths = args
+    rc, out, err = vlib.run_exe(exe, ["fixed", str(rate), str(interp), str(frames)] + paths, timeout=1800)
+    return rc, out.decode("latin-1"), err
+
+
+def digest_window_output(ck, out, sh_replay, tot, vtot):
+    """Direct oracle lines + driver evaluation of one harness output; shared by the random shards and the witnesses."""
+    for b in re.findall(r"^bad (.*)$", out, re.M)[:3]:
+        ck.violation("window:out-of-allocation", dict(sh_replay, line=b),
+                     "a mixing kernel call reads outside the sample allocation: " + b)
+    for b in re.findall(r"^badalloc (.*)$", out, re.M)[:3]:
+        ck.violation("window:allocation-smaller-than-C20-layout", dict(sh_replay, line=b),
+                     "a sample played by the mixer is not inside a block of 4 + (len+4)*framelen bytes: " + b)
+    st = re.search(r"stat calls=(\d+) printed=(\d+) maxiter=(\d+) ticksize_violations=(\d+)", out)
+    if st:
+        ck.bump("kernel_calls_observed", int(st.group(1)))
+        if int(st.group(4)) > 0:
+            ck.violation("window:iterations>ticksize", sh_replay,
+                         "a kernel call was asked for more samples than the tick size")
+    st = re.search(r"alloc_checked=(\d+) alloc_bad=(\d+)", out)
+    if st:
+        ck.bump("sample_allocations_checked_against_C20_layout", int(st.group(1)))
+    if not ck.lean_ok:
+        return
+    lines = vlib.run_driver("drv_c01", out)
+    m = re.match(r"total (\d+) bad (\d+) hyp (\d+) nohyp (\d+) reverse (\d+)", lines[0]) if lines else None
+    if m:
+        for k, v in zip(["total", "bad", "hyp", "nohyp", "reverse"], m.groups()):
+            tot[k] += int(v)
+        if int(m.group(2)) > 0:
+            ck.unproved("correspondence MixWindow.windowOk vs real kernel calls", "; ".join(lines[1:4]))
+    v = parse_voice_line(lines)
+    if v is None:
+        ck.unproved("correspondence VoicePos: driver produced no voice summary", "; ".join(lines[:3]))
+        return
+    for k in VOICE_KEYS:
+        vtot[k] = vtot.get(k, 0) + v.get(k, 0)
+    msgs = [l[4:] for l in lines if l.startswith("msg ")]
+    if v.get("callBad", 0) > 0:
+        # the model's window check fails on an observed loop-top state: the property itself is at stake
+        ck.violation("voice:window-from-observed-state", dict(sh_replay, detail=msgs[:3]),
+                     "the kernel call the mixer makes from an observed voice state leaves [-1, len+3]: " + "; ".join(msgs[:2])[:600])
+    if v.get("invBad", 0) > 0:
+        ck.unproved("voice invariant (XmpProofs.VoicePos.Inv) on observed loop-top states", "; ".join(msgs[:3])[:1500])
+    if v.get("smpBad", 0) > 0:
+        ck.unproved("assumption SmpOk (loop / sustain loop inside the sample) on observed samples that have data",
+                    "; ".join(msgs[:3])[:1500])
+    if any(v.get(k, 0) > 0 for k in VOICE_BAD):
+        ck.unproved("correspondence XmpModel.VoicePos vs real mixer state transitions (%s)" %
+                    ",".join(k for k in VOICE_BAD if v.get(k, 0) > 0), "; ".join(msgs[:3])[:1500])
 
 
 def fuzz_files(ck, maxsize, nsynth):
@@ -42,35 +149,54 @@ def fuzz_files(ck, maxsize, nsynth):
     d = os.path.join(vlib.OUT, "c01", "syn-%d" % ck.seed)
     shutil.rmtree(d, ignore_errors=True)
     syn = synthmods.write_set(random.Random(ck.seed * 7919 + 5), d, nsynth)
+    # format-aware layer for DBM (chunk order, envelopes, per-instrument loops) and IT with compressed samples
+    # whose streams are cut short
+    syn += synthmods.write_set_extra(random.Random(ck.seed * 104729 + 11), d, max(8, nsynth // 2))
     k = max(1, len(files) // (2 * max(1, len(syn))))
     return files + syn * k
 
 
+ASAN_BASE = "detect_leaks=0:abort_on_error=0:allocator_may_return_null=1"
+FILL_MAIN, FILL_ALT = 165, 0
+
+
+def fill_env(byte):
+    """ASan fills every fresh heap block (of any size) with `byte`: what uninitialised heap memory looks like."""
+    return {"ASAN_OPTIONS": ASAN_BASE + ":max_malloc_fill_size=268435456:malloc_fill_byte=%d" % byte}
+
+
+def digests(text):
+    return {int(i): (int(r), d) for i, r, d in re.findall(r"^done (\d+) ret=(-?\d+) dig=([0-9a-f]+)", text, re.M)}
+
+
 def run_fuzz_shard(args):
     """Runs [first, first+count) of one seed; on abort records the failing case and continues after it."""
-    exe, seed, first, count, scratch, files, variant = args
+    exe, seed, first, count, scratch, files, variant = args[:7]
+    fill = args[7] if len(args) > 7 else FILL_MAIN
     out_cases, fails = 0, []
     start = first
-    env = {}
+    env = fill_env(fill)
     if variant == "msan":
         env = {"MSAN_OPTIONS": "abort_on_error=0:exit_code=77"}
+    alltext = ""
     while start < first + count:
         rc, out, err = vlib.run_exe(exe, [str(seed), str(start), str(first + count - start), scratch, "san"] + files,
                                     timeout=3600, env=env)
         text = out.decode("latin-1")
+        alltext += text
         done = re.findall(r"^done (\d+) ret=(-?\d+)", text, re.M)
         cases = re.findall(r"^case (\d+) (\S+) (.*)$", text, re.M)
         out_cases += len(done)
         if rc == 0:
-            return out_cases, fails, text
+            return out_cases, fails, alltext
         if not cases:
             fails.append({"index": start, "desc": "harness failed before the first case", "stderr": err[-3000:], "rc": rc})
-            return out_cases, fails, text
+            return out_cases, fails, alltext
         last = cases[-1]
         fails.append({"index": int(last[0]), "file": last[1], "desc": last[2], "stderr": err[-3500:], "rc": rc,
                       "args": [str(seed), last[0], "1", scratch, "san"]})
         start = int(last[0]) + 1
-    return out_cases, fails, ""
+    return out_cases, fails, alltext
 
 
 def run_window_shard(args):
@@ -80,12 +206,34 @@ def run_window_shard(args):
 
 
 def run(ck):
-    ck.proofs(["XmpProps.C01"], required=REQUIRED, drivers=["drv_c01"])
+    # ---- translator: the clamps the voice model relies on, read from mixer.c ---------------
+    facts = gen_mixer_voice.generate()
+    ck.note("mixer_voice_facts", facts)
+    # own modules first (models, window + voice theorems, driver); the composition file imports the property files of
+    # C20 / C03 / C16, which other people edit: if one of those is broken only the C01Compose theorems become unproved,
+    # the tie and the search still run
+    core_req = [r for r in REQUIRED if ".C01Compose." not in r]
+    ck.proofs(["XmpProps.C01"], required=core_req, drivers=["drv_c01"])
+    core_ok, core_cov = ck.lean_ok, (ck.cov["obligations"], ck.cov["discharged"])
+    core_notes = {k: ck.notes.get(k) for k in ("axioms_used", "lean_modules", "property_theorems")}
+    if core_ok:
+        ck.proofs(PROOF_MODULES, required=REQUIRED)
+        if not ck.lean_ok:
+            ck.cov["obligations"] = core_cov[0] + len(REQUIRED) - len(core_req)
+            ck.cov["discharged"] = core_cov[1]
+            for k, v in core_notes.items():
+                ck.note(k, v)
+            for r in REQUIRED:
+                if ".C01Compose." in r:
+                    ck.unproved("theorem " + r, "XmpProps.C01Compose (or a property file it imports: C20, C03, C16) does not build")
+        ck.lean_ok = core_ok
+    for name, problem in gen_mixer_voice.expectations(facts):
+        ck.unproved("generated fact %s (tools/gen_mixer_voice.py)" % name, problem)
     quick = ck.tier == "quick"
     scratch = os.path.join(vlib.OUT, "c01")
     os.makedirs(scratch, exist_ok=True)
 
-    # ---- tie: observed kernel calls vs the window model ---------------------------------
+    # ---- tie: observed kernel calls and voice states vs the models ------------------------
     wexe = vlib.build_harness("c01_window", ["c01_window.c"])
     mods = [f for f in vlib.corpus_files() if os.path.getsize(f) < 600000]
     ck.rng.shuffle(mods)
@@ -93,37 +241,65 @@ def run(ck):
     per = 6 if quick else 40
     shards = [(wexe, ck.seed * 31 + i, per, 250 if quick else 600, mods[i::nsh][:40 if quick else 400]) for i in range(nsh)]
     tot = {"total": 0, "bad": 0, "hyp": 0, "nohyp": 0, "reverse": 0}
+    vtot = {}
     for (rc, out, err), sh in zip(vlib.pmap(run_window_shard, shards), shards):
+        rp = {"harness": "c01_window", "args": [str(x) for x in sh[1:4]] + sh[4]}
         if rc != 0:
             sig = vlib.sanitizer_signature(err)
-            ck.violation("window-harness:" + sig, {"args": [str(x) for x in sh[1:4]] + sh[4], "stderr": err[-3000:]},
+            ck.violation("window-harness:" + sig, dict(rp, stderr=err[-3000:]),
                          "sanitizer report while playing unmodified corpus modules: " + sig)
             continue
-        for b in re.findall(r"^bad (.*)$", out, re.M)[:3]:
-            ck.violation("window:out-of-allocation", {"args": [str(x) for x in sh[1:4]] + sh[4], "line": b},
-                         "a mixing kernel call reads outside the sample allocation: " + b)
-        st = re.search(r"stat calls=(\d+) printed=(\d+) maxiter=(\d+) ticksize_violations=(\d+)", out)
-        if st:
-            ck.bump("kernel_calls_observed", int(st.group(1)))
-            if int(st.group(4)) > 0:
-                ck.violation("window:iterations>ticksize", {"args": [str(x) for x in sh[1:4]] + sh[4]},
-                             "a kernel call was asked for more samples than the tick size")
-        if ck.lean_ok:
-            lines = vlib.run_driver("drv_c01", out)
-            m = re.match(r"total (\d+) bad (\d+) hyp (\d+) nohyp (\d+) reverse (\d+)", lines[0]) if lines else None
-            if m:
-                for k, v in zip(["total", "bad", "hyp", "nohyp", "reverse"], m.groups()):
-                    tot[k] += int(v)
-                if int(m.group(2)) > 0:
-                    ck.unproved("correspondence MixWindow.windowOk vs real kernel calls", "; ".join(lines[1:4]))
+        digest_window_output(ck, out, rp, tot, vtot)
+
+    # ---- regression witnesses of the voice invariant (every voice-tick traced) -----------------
+    wdir = os.path.join(scratch, "witness")
+    shutil.rmtree(wdir, ignore_errors=True)
+    wit = synthmods.c01_witnesses(wdir)
+    cdir = os.path.join(vlib.VERIF, "corpus", "C01")
+    if os.path.isdir(cdir):
+        wit += [(os.path.join(cdir, f), 4000, [0, 1, 2]) for f in sorted(os.listdir(cdir))]
+    wjobs = [(wexe, rate, interp, 200 if quick else 1200, [path]) for (path, rate, interps) in wit for interp in interps]
+    # structure-aware synthetic DBM / compressed-IT modules, plain playback (no mode switch: see the note in MANIFEST)
+    sdir = os.path.join(scratch, "wsyn-%d" % ck.seed)
+    shutil.rmtree(sdir, ignore_errors=True)
+    wsyn = synthmods.write_set_extra(random.Random(ck.seed * 15485863 + 3), sdir, 24 if quick else 160,
+                                     gens=[synthmods.gen_dbm, synthmods.gen_it_compressed])
+    for k, (rate, interp) in enumerate([(8000, 2), (22050, 0), (48000, 1), (4000, 1)]):
+        part = wsyn[k::4]
+        if part:
+            wjobs.append((wexe, rate, interp, 120 if quick else 400, part))
+    for (rc, out, err), job in zip(vlib.pmap(run_fixed_window, wjobs), wjobs):
+        rp = {"harness": "c01_window", "args": ["fixed", str(job[1]), str(job[2]), str(job[3])] + job[4]}
+        name = os.path.basename(job[4][0]) if len(job[4]) == 1 else "synthetic-set"
+        ck.count("witness:%s:%d:%d" % (name, job[1], job[2]), nontrivial=True)
+        if rc != 0:
+            sig = vlib.sanitizer_signature(err)
+            if "reverse" in name and "heap-buffer-overflow" in sig:
+                sig = "voice:reverse-past-end"
+            ck.violation(sig if sig.startswith("voice:") else "witness:" + sig, dict(rp, stderr=err[-3000:]),
+                         "sanitizer report while playing the regression witness %s at %d Hz, interpolation %d: %s" %
+                         (name, job[1], job[2], vlib.sanitizer_signature(err)))
+            continue
+        digest_window_output(ck, out, rp, tot, vtot)
+    ck.note("voice_witness_runs", len(wjobs))
+
     ck.note("window_calls_checked_by_model", tot["total"])
     ck.note("window_calls_meeting_theorem_hypotheses", tot["hyp"])
     ck.note("window_calls_not_meeting_hypotheses", tot["nohyp"])
     ck.note("window_reverse_calls", tot["reverse"])
-    ck.cov["traces_validated_against_impl"] += tot["total"]
+    ck.note("voice_transitions", {k: vtot.get(k, 0) for k in VOICE_KEYS})
+    nvoice = sum(vtot.get(k, 0) for k in ("tickOk", "stepOk", "stepFp", "endOk", "endFp", "apiOk", "kOk", "kFp"))
+    ck.cov["traces_validated_against_impl"] += tot["total"] + nvoice
     if tot["total"] and tot["nohyp"] * 50 > tot["total"]:
         ck.unproved("hypotheses of C01_window_forward/_reverse vs real kernel calls",
                     "%d of %d observed kernel calls do not meet the theorem hypotheses" % (tot["nohyp"], tot["total"]))
+    nfp = vtot.get("stepFp", 0) + vtot.get("endFp", 0) + vtot.get("kFp", 0) + vtot.get("invTol", 0)
+    if nvoice and nfp * 200 > nvoice:
+        ck.unproved("floating-point divergence between the exact-rational voice model and the double arithmetic of mixer.c",
+                    "%d of %d observed transitions only match with samples+-1 or a nudged position" % (nfp, nvoice))
+    if ck.lean_ok and (vtot.get("stepOk", 0) == 0 or vtot.get("stepRev", 0) == 0 or vtot.get("stepSwap", 0) == 0
+                       or vtot.get("tickOk", 0) == 0 or vtot.get("apiOk", 0) == 0):
+        ck.unproved("coverage of the voice correspondence", "no forward/reverse/swap/prologue/API transition was observed: %r" % vtot)
 
     # ---- search: sanitized mutational exploration -----------------------------------------
     variants = ["asan"] if quick else ["asan", "msan"]
@@ -136,7 +312,8 @@ def run(ck):
         per = 220 if quick else (6000 if variant == "asan" else 2500)
         shards = [(fexe, ck.seed * 1009 + 17 * i + (0 if variant == "asan" else 500), 0, per, scratch, files, variant)
                   for i in range(16)]
-        for (n, fails, text), sh in zip(vlib.pmap(run_fuzz_shard, shards), shards):
+        results = vlib.pmap(run_fuzz_shard, shards)
+        for (n, fails, text), sh in zip(results, shards):
             ncases += n
             for c in re.findall(r"^case (\d+) (\S+) entry=(\d) test=(\d) mut=\[(\w+)", text, re.M):
                 key = "entry%s%s:%s" % (c[2], "t" if c[3] == "1" else "l", c[4])
@@ -153,10 +330,43 @@ def run(ck):
                              {"harness": "c01_fuzz (%s build)" % variant, "args": f.get("args"), "files": files, "case": f.get("desc"),
                               "file": f.get("file"), "stderr": f["stderr"][-2500:]},
                              "%s report: %s on %s [%s]" % (variant, sig, os.path.basename(f.get("file", "?")), f.get("desc")))
+        if variant != "asan":
+            continue
+        # ---- heap-garbage independence: a slice of the same cases under a different allocator fill byte -----
+        # (the main run above used fill byte FILL_MAIN for every fresh heap block; everything a client can read is
+        # folded into the per-case digest, so a digest that changes with the fill byte depends on uninitialised heap)
+        main = {}
+        for (n, fails, text), sh in zip(results, shards):
+            first_fail = min([f["index"] for f in fails] + [10 ** 9])
+            main[sh[1]] = (digests(text), first_fail)
+        alt_shards = [sh[:3] + (max(1, sh[3] // 3),) + sh[4:7] + (FILL_ALT,) for sh in shards]
+        ncmp = 0
+        for (n, fails, text), sh in zip(vlib.pmap(run_fuzz_shard, alt_shards), alt_shards):
+            dmain, first_fail = main[sh[1]]
+            first_fail = min([f["index"] for f in fails] + [first_fail])
+            dalt = digests(text)
+            srcs = dict((int(i), f) for i, f in re.findall(r"^case (\d+) (\S+) ", text, re.M))
+            for idx in sorted(dalt):
+                if idx >= first_fail or idx not in dmain:
+                    continue
+                ncmp += 1
+                if dalt[idx] != dmain[idx]:
+                    fname = os.path.basename(srcs.get(idx, "?"))
+                    ck.violation("uninit-heap-dependence:" + re.sub(r"^sy[nx]\d+", "syn", fname),
+                                 {"harness": "c01_fuzz (asan build) heapfill", "index": idx, "fills": [FILL_MAIN, FILL_ALT],
+                                  "args": [str(sh[1]), "0", str(idx + 1), scratch, "san"], "files": files,
+                                  "digests": [dmain[idx], dalt[idx]], "file": srcs.get(idx)},
+                                 "case %d on %s: what a client reads (module info / sample data / audio) differs between allocator "
+                                 "fill bytes %d and %d: %s vs %s -> it depends on uninitialised heap memory" %
+                                 (idx, fname, FILL_MAIN, FILL_ALT, dmain[idx], dalt[idx]))
+                    break
+        ck.note("heapfill_cases_compared", ncmp)
     ck.note("mutation_and_entry_distribution", dict(sorted(kinds.items())[:60]))
     ck.note("fuzz_cases_completed", ncases)
     ck.sample({"fuzz case": "seed*1009+17*shard, index", "example": "case 12 …/ode2ptk.mod entry=2 test=0 mut=[field16be x2]"})
     ck.sample({"window line": "w q0 stepfix count interp len rev pn sn bound D", "checked": tot})
+    ck.sample({"voice lines": "T/L/K/E tick prologue, loop-top states, kernel calls, loop exit; P/A/R/Z voicepos, setpatch, reverse, "
+                              "release (positions exact over 2^62)", "checked": {k: vtot.get(k, 0) for k in VOICE_KEYS}})
     ck.cov["rule"] = ("fuzz case = (corpus file, mutation kind, entry point of 8, context reuse, player mode/smpctl, output configuration, "
                       "random history of set_position/next/prev/set_row/seek_time/restart/stop/mute/play_buffer) derived from (seed, index); "
                       "distinct by (seed, index, build); non-trivial = the input was mutated (not the intact corpus file)")
@@ -166,8 +376,35 @@ def run(ck):
 
 def replay(ck, rp):
     r = rp["replay"]
+    if r.get("harness") == "c01_window":
+        exe = vlib.build_harness("c01_window", ["c01_window.c"])
+        rc, out, err = vlib.run_exe(exe, r["args"], timeout=1800)
+        text = out.decode("latin-1")
+        bad = re.findall(r"^bad .*$", text, re.M)
+        print("\n".join(bad[:5]))
+        print(err[-4000:])
+        if rc == 0 and ck is not None:
+            try:
+                print("\n".join(vlib.run_driver("drv_c01", text)[:16]))
+            except Exception as e:      # driver not built: the direct oracle above is what counts
+                print("driver not available: %s" % e)
+        if rc != 0 or bad:
+            print("VIOLATION property=C01 replay=(replayed)")
+            return 1
+        return 0
     variant = "msan" if "msan" in r.get("harness", "") else "asan"
     exe = vlib.build_harness("c01_fuzz", ["c01_fuzz.c"], variant=variant)
+    if "heapfill" in r.get("harness", ""):
+        got = []
+        for fill in r["fills"]:
+            rc, out, err = vlib.run_exe(exe, r["args"] + r["files"], env=fill_env(fill), timeout=3600)
+            d = digests(out.decode("latin-1")).get(r["index"])
+            print("fill byte %d: case %d -> %s" % (fill, r["index"], d))
+            got.append(d)
+        if got[0] != got[1]:
+            print("VIOLATION property=C01 replay=(replayed) the result depends on uninitialised heap memory")
+            return 1
+        return 0
     rc, out, err = vlib.run_exe(exe, r["args"] + r["files"])
     print(out.decode("latin-1")[-1500:])
     print(err[-4000:])
